@@ -827,14 +827,17 @@ func (g *gen) securingFor(ds *defSpec, d *descSpec, want bool) securing {
 func (g *gen) render(t *tmpl, s securing) *cred {
 	var c *cred
 	var err error
+	subjArr := false
 	if s.format == "ldp_vc" {
 		c, err = renderLDP(t, s.signed, g.rnd)
 	} else {
-		c, err = renderJWT(t, s.signed, g.p(0.5), g.rnd)
+		subjArr = g.p(0.5)
+		c, err = renderJWT(t, s.signed, subjArr, g.rnd)
 	}
 	if err != nil {
 		panic(fmt.Sprintf("harness: generated credential does not parse: %v", err))
 	}
+	c.tmpl, c.subjArr = t.clone(), subjArr
 	return c
 }
 
